@@ -584,6 +584,20 @@ func checkAutoLoader(p *Program, r *Report, pre string) {
 		}
 		return false
 	}
+	// the stream a format loader returns is never nil (obligation all-returns of each loader,
+	// discharged in the same run): defensive `if stream == nil` guards are dead code
+	e.NonNil = func(v Val) bool {
+		o, ok := v.(*Opaque)
+		if !ok || !strings.HasSuffix(o.Fn, "#1") {
+			return false
+		}
+		for _, w := range want {
+			if strings.HasPrefix(o.Fn, "call:"+shortFn(w)+"@") || o.Fn == "call:"+shortFn(w)+"#1" {
+				return true
+			}
+		}
+		return false
+	}
 	outs := e.Run(L, []Val{rv}, nil)
 	ob := newObligations()
 	success := map[*ssa.Function]bool{}
@@ -678,7 +692,7 @@ func checkAutoLoader(p *Program, r *Report, pre string) {
 			}
 		case lastKnown && !lastNil:
 			ev, isE := tp[2].(*ErrVal)
-			nonNil := (isE && !ev.IsNil) || valKey(tp[2]) == valKey(last[2])
+			nonNil := (isE && !ev.IsNil) || valKey(tp[2]) == valKey(last[2]) || nonNilErrorValue(tp[2])
 			if len(calls) != len(want) {
 				ob.bad("exhaustion-return", fmt.Sprintf("the path returning at %s gives up after %d of %d loaders", where, len(calls), len(want)))
 			} else if valKey(tp[0]) != "nil" || valKey(tp[1]) != valKey(last[1]) || !nonNil {
